@@ -371,8 +371,9 @@ fn run(ctx: &mut Ctx) {
     ctx.bound("inputs", format!("desc_size 0..=128 + EDGE32 x desc_version {{1,0,2,0xFFFFFFFF}} x every map length 0..={} (not only multiples); byte-marked descriptors; tag flush against a guard page; fills A/B; canonical program = memory_areas, Debug, then next() to the end with len()/size_hint() before every step, a clone after the first item, Debug of the tag", lmax));
     let mut ds: Vec<u32> = (0..=128).collect();
     ds.extend(EDGE32.iter().copied().filter(|&e| e > 128));
+    let mut versions: Vec<u32> = vec![1, 0, 2, 0xFFFF_FFFF];
     for &d in &ds {
-        for ver in [1u32, 0, 2, 0xFFFF_FFFF] {
+        for &ver in &versions {
             for l in 0..=lmax {
                 let img = image(d, ver, l);
                 let describe = || J::obj().set("body", "canonical").set("desc_size", d).set("desc_version", ver).set("map_len", l).set("tag", J::hex(&img));
@@ -384,6 +385,22 @@ fn run(ctx: &mut Ctx) {
                     canonical(ctx, &arena, d, ver, l, &img);
                 });
             }
+        }
+    }
+    // the version word: every single-bit flip of 1 and the 8/16/24-bit boundary values (a comparison on part of the word)
+    versions.clear();
+    versions.extend((0..32).map(|b| 1u32 ^ (1 << b)));
+    versions.extend(EDGE32.iter().copied());
+    ctx.bound("versions", "desc_version = 1 with every single bit flipped, and every EDGE32 value, on maps of 0, 1 and 3 descriptors of 48 bytes");
+    for &ver in &versions {
+        for l in [0usize, 48, 144] {
+            let img = image(48, ver, l);
+            let describe = || J::obj().set("body", "canonical-version").set("desc_size", 48).set("desc_version", ver).set("map_len", l);
+            ctx.leaf(describe, |ctx| {
+                ctx.state_direct();
+                ctx.nontrivial();
+                canonical(ctx, &arena, 48, ver, l, &img);
+            });
         }
     }
     // several descriptors at every valid stride up to 128 and at larger ones; large counts
